@@ -26,8 +26,9 @@ PLAIN_START = "/\\%$@!&*;<>?^{}|~"
 # ----------------------------------------------------------------------------- rendering
 
 class Out(object):
-    def __init__(self, nl):
+    def __init__(self, nl, mix=None):
         self.nl = nl
+        self.mix = mix
         self.parts = []
         self.toks = []
         self.line = 1
@@ -40,7 +41,14 @@ class Out(object):
         self.parts.append(text)
 
     def newline(self):
-        self.parts.append(self.nl)
+        nl = self.nl
+        if self.mix:
+            # line ends of different kinds in one file (a Unix header on a classic-Mac body, pasted CRLF parts)
+            nl = self.mix[self.line % len(self.mix)]
+            last = next((x for x in reversed(self.parts) if x), "")
+            if nl == "\n" and last.endswith("\r"):
+                nl = "\r\n"  # a lone LF right after a CR would read as one CRLF break
+        self.parts.append(nl)
         self.line += 1
 
     def gap(self, g, allow_nl=True):
@@ -129,7 +137,7 @@ def render_value(out, v, lm, path):
 
 def render(prog):
     """-> (text, linemap).  linemap keys: ("cmd", i), ("arg", i, j), ("val", i, j, *indices)."""
-    out = Out(prog.get("nl", "\n"))
+    out = Out(prog.get("nl", "\n"), prog.get("nl_mix"))
     lm = {}
     out.gap(prog.get("head"))
     for i, c in enumerate(prog["commands"]):
@@ -443,6 +451,8 @@ def programs(draw, value_strategy=None, max_commands=5, nl=None):
         "nl": nl or draw(st.sampled_from(["\n", "\n", "\n", "\r\n", "\r\n", "\r"])),
         "head": draw(gaps(3)), "commands": cmds, "tail": draw(gaps(3)),
     }
+    if draw(st.integers(0, 5)) == 0:
+        prog["nl_mix"] = draw(st.lists(st.sampled_from(["\n", "\r", "\r\n"]), min_size=2, max_size=5))
     eof = draw(st.sampled_from([None, None, None, "#", " # done", "#) = [", "  "]))
     if eof:
         prog["eof"] = eof
